@@ -18,6 +18,12 @@ def dispatch (c : J) : Res :=
   | "event" => handleEvent c
   | "informer" => handleInformer c
   | "meta" => handleMeta c
+  -- a handler with a private resync period removed in the middle of a round: nothing may reach it after the removal returned
+  | "informer-resync" =>
+      let r := tag (tag { sig := c.render } "resync-removal") (if c.getBool "reachedRound" then "removed-mid-round" else "removed-before-round")
+      let r := judge r "C18" (check (c.getInt "after" == c.getInt "atRemoval")
+        s!"a handler removed during its private resync round received {c.getInt "after" - c.getInt "atRemoval"} more deliveries after the removal returned")
+      judge r "C18" (check (c.getBool "otherSawAll") "the other subscriber of the same informer did not receive the cached objects")
   -- a run of concurrent workers under the race detector (a detected race fails the harness run itself)
   | "race" => judge (tag { sig := c.render } "race-run") "C17" (check (c.getInt "leaked" == 0) "subscriptions leaked by concurrent first syncs")
   | k => { agree := false, where_ := s!"unknown kind {k}" }
